@@ -49,6 +49,7 @@ func genC13(t *rapid.T) *c13Case {
 // vStartMemberAt starts a member on a given RESP port (re-join under the same address).
 func vStartMemberAt(o vOpts, peers []string, port int) (*vMember, error) {
 	c := vConfig(o)
+	c.MemberlistConfig.Label = vLabelFor(peers)
 	c.BindPort = port
 	c.Peers = append([]string(nil), peers...)
 	if err := c.Sanitize(); err != nil {
@@ -74,6 +75,7 @@ func vStartMemberAt(o vOpts, peers []string, port int) (*vMember, error) {
 		}
 		time.Sleep(2 * time.Millisecond)
 	}
+	vMarkAlive(m.name, true)
 	m.emb = db.NewEmbeddedClient()
 	m.rc = redis.NewClient(&redis.Options{Addr: m.name, MaxRetries: -1, DialTimeout: 2 * time.Second, ReadTimeout: 10 * time.Second, PoolSize: 64})
 	return m, nil
@@ -85,6 +87,7 @@ func (cl *vCluster) kill(m *vMember) {
 		return
 	}
 	m.alive = false
+	vMarkAlive(m.name, false)
 	m.killed = true
 	m.db.rt.Discovery().VerifKill()
 	_ = m.db.server.VerifCloseListener()
@@ -470,7 +473,7 @@ func TestVerifC13(t *testing.T) {
 	rapid.Check(t, func(rt *rapid.T) {
 		c := genC13(rt)
 		v, nt, inc := runC13(c)
-		if inc {
+		if inc || (v != nil && vFlapsSinceMark() > 0) {
 			col.Inconclusive()
 			return
 		}
